@@ -156,6 +156,18 @@ def body(prop, cfg, tier, seed, replay, scratch, violations, known_hits, notes, 
           attempts += 1
           if rc == 0:
             break
+          if rc == -999:
+            # the whole run hit the wall-clock limit of one harness invocation (large n, loaded machine): not a property of the
+            # library (hangs inside a case are caught by the per-case watchdog of the harness) - resume after the last case seen
+            last = None
+            for l in open(lines, errors="replace"):
+                t = l.split(" ", 1)[0]
+                if t.isdigit():
+                    last = int(t)
+            if last is not None and last + 1 > start and attempts < 25:
+                start = last + 1
+                notes.append("harness %s seed %s resumed at case %d after the per-invocation time limit" % (hname, s, start))
+                continue
           if True:
             died = None
             for l in open(lines, errors="replace"):
